@@ -136,4 +136,206 @@ theorem gen_depth {s : Skel} {ts : List Tok} (hg : Gen s ts) :
   | stopTok n => intro hb; simp [balancedSkel] at hb
   | unknown ts => intro hb; simp [balancedSkel] at hb
 
+/-! ### soundness of the skeleton matcher -/
+
+/-- `r` is what is left of `ts` after a prefix the skeleton can produce -/
+def Pre (s : Skel) (ts r : List Tok) : Prop := ∃ pre, ts = pre ++ r ∧ Gen s pre
+
+theorem mem_dedupLen {x : List Tok} {l : List (List Tok)} (h : x ∈ dedupLen l) : x ∈ l := by
+  induction l with
+  | nil => simp [dedupLen] at h
+  | cons y ys ih =>
+    simp only [dedupLen, List.foldr_cons] at h
+    split at h
+    · exact List.mem_cons_of_mem _ (ih h)
+    · rcases List.mem_cons.mp h with rfl | h'
+      · simp
+      · exact List.mem_cons_of_mem _ (ih h')
+
+theorem gen_many_snoc {s : Skel} {p : List Tok} (hp : Gen (.many s) p) :
+    ∀ q, Gen s q → Gen (.many s) (p ++ q) := by
+  generalize hm : Skel.many s = m at hp
+  induction hp with
+  | manyNil =>
+    intro q hq
+    cases hm
+    have := Gen.manyCons hq (Gen.manyNil (s := s))
+    simpa using this
+  | manyCons h1 _ _ ih2 =>
+    intro q hq
+    cases hm
+    have := Gen.manyCons h1 (ih2 rfl q hq)
+    simpa [List.append_assoc] using this
+  | empty => cases hm
+  | chars _ => cases hm
+  | wrap _ _ _ => cases hm
+  | seq _ _ => cases hm
+  | altL _ => cases hm
+  | altR _ => cases hm
+  | ext _ => cases hm
+  | startTok _ _ => cases hm
+  | stopTok _ => cases hm
+  | unknown _ => cases hm
+
+theorem balRests_sound : ∀ (ts : List Tok) (d : Nat) (r : List Tok), r ∈ balRests d ts →
+    ∃ pre, ts = pre ++ r ∧ depthAfter d pre = some 0 := by
+  intro ts
+  induction ts with
+  | nil =>
+    intro d r h
+    simp only [balRests] at h
+    split at h
+    · simp only [List.mem_singleton] at h; subst h; subst_vars; exact ⟨[], rfl, by simp [depthAfter]⟩
+    · simp at h
+  | cons t rest ih =>
+    intro d r h
+    simp only [balRests, List.mem_append] at h
+    rcases h with h | h
+    · split at h
+      · simp only [List.mem_singleton] at h; subst h; subst_vars; exact ⟨[], rfl, by simp [depthAfter]⟩
+      · simp at h
+    · cases t with
+      | start n as =>
+        obtain ⟨pre, h1, h2⟩ := ih (d + 1) r h
+        exact ⟨Tok.start n as :: pre, by simp [h1], by simpa [depthAfter] using h2⟩
+      | stop n =>
+        simp only at h
+        split at h
+        · simp at h
+        · rename_i hd
+          obtain ⟨pre, h1, h2⟩ := ih (d - 1) r h
+          refine ⟨Tok.stop n :: pre, by simp [h1], ?_⟩
+          cases d with
+          | zero => exact absurd rfl hd
+          | succ d => simpa [depthAfter] using h2
+      | chars c =>
+        obtain ⟨pre, h1, h2⟩ := ih d r h
+        exact ⟨Tok.chars c :: pre, by simp [h1], by simpa [depthAfter] using h2⟩
+      | comment c =>
+        obtain ⟨pre, h1, h2⟩ := ih d r h
+        exact ⟨Tok.comment c :: pre, by simp [h1], by simpa [depthAfter] using h2⟩
+      | procInst a b =>
+        obtain ⟨pre, h1, h2⟩ := ih d r h
+        exact ⟨Tok.procInst a b :: pre, by simp [h1], by simpa [depthAfter] using h2⟩
+      | directive c =>
+        obtain ⟨pre, h1, h2⟩ := ih d r h
+        exact ⟨Tok.directive c :: pre, by simp [h1], by simpa [depthAfter] using h2⟩
+
+theorem suffixes_sound : ∀ (ts r : List Tok), r ∈ suffixes ts → ∃ pre, ts = pre ++ r := by
+  intro ts
+  induction ts with
+  | nil => intro r h; simp [suffixes] at h; exact ⟨[], by simp [h]⟩
+  | cons t rest ih =>
+    intro r h
+    simp only [suffixes, List.mem_cons] at h
+    rcases h with rfl | h
+    · exact ⟨[], rfl⟩
+    · obtain ⟨pre, hp⟩ := ih r h
+      exact ⟨t :: pre, by simp [hp]⟩
+
+theorem manyLoop_inv (P : List Tok → Prop) (step : List Tok → List (List Tok))
+    (hstep : ∀ x y, P x → y ∈ step x → P y) :
+    ∀ (k : Nat) (frontier seen : List (List Tok)), (∀ x ∈ frontier, P x) → (∀ x ∈ seen, P x) →
+      ∀ r ∈ manyLoop step k frontier seen, P r := by
+  intro k
+  induction k with
+  | zero => intro frontier seen _ hs r hr; simp only [manyLoop] at hr; exact hs r hr
+  | succ k ih =>
+    intro frontier seen hf hs r hr
+    simp only [manyLoop] at hr
+    split at hr
+    · exact hs r hr
+    · have hnext : ∀ x ∈ (dedupLen (frontier.flatMap step)).filter
+          (fun r => !seen.any (·.length == r.length)), P x := by
+        intro x hx
+        have hx' := mem_dedupLen (List.mem_filter.mp hx).1
+        obtain ⟨y, hy, hxy⟩ := List.mem_flatMap.mp hx'
+        exact hstep y x (hf y hy) hxy
+      apply ih _ _ hnext _ r hr
+      intro x hx
+      rcases List.mem_append.mp hx with h | h
+      · exact hs x h
+      · exact hnext x h
+
+theorem matchS_sound : ∀ (f : Nat) (s : Skel) (ts r : List Tok), r ∈ matchS f s ts → Pre s ts r := by
+  intro f
+  induction f with
+  | zero => intro s ts r h; simp [matchS] at h
+  | succ f ih =>
+    intro s ts r h
+    cases s with
+    | empty =>
+      simp only [matchS, List.mem_singleton] at h; subst h
+      exact ⟨[], rfl, Gen.empty⟩
+    | chars =>
+      simp only [matchS] at h
+      split at h
+      · simp only [List.mem_singleton] at h; subst h
+        exact ⟨[Tok.chars _], rfl, Gen.chars _⟩
+      · simp at h
+    | wrap i =>
+      simp only [matchS] at h
+      split at h
+      · rename_i n as r0
+        have h' := mem_dedupLen h
+        obtain ⟨r', hr', hsome⟩ := List.mem_filterMap.mp h'
+        split at hsome
+        · rename_i m r''
+          split at hsome
+          · rename_i hmn
+            simp only [Option.some.injEq] at hsome; subst hsome; subst hmn
+            obtain ⟨pre, h1, h2⟩ := ih i r0 _ hr'
+            exact ⟨Tok.start m as :: pre ++ [Tok.stop m], by simp [h1], Gen.wrap m as h2⟩
+          · simp at hsome
+        · simp at hsome
+      · simp at h
+    | seq a b =>
+      simp only [matchS] at h
+      obtain ⟨r1, hr1, hr⟩ := List.mem_flatMap.mp (mem_dedupLen h)
+      obtain ⟨p1, e1, g1⟩ := ih a ts r1 hr1
+      obtain ⟨p2, e2, g2⟩ := ih b r1 r hr
+      exact ⟨p1 ++ p2, by simp [e1, e2], Gen.seq g1 g2⟩
+    | many s =>
+      simp only [matchS] at h
+      refine manyLoop_inv (Pre (.many s) ts) (matchS f s) ?_ (ts.length + 1) [ts] [ts] ?_ ?_ r h
+      · intro x y hx hy
+        obtain ⟨p, e1, g1⟩ := hx
+        obtain ⟨q, e2, g2⟩ := ih s x y hy
+        exact ⟨p ++ q, by simp [e1, e2], gen_many_snoc g1 q g2⟩
+      · intro x hx; simp only [List.mem_singleton] at hx; subst hx; exact ⟨[], rfl, Gen.manyNil⟩
+      · intro x hx; simp only [List.mem_singleton] at hx; subst hx; exact ⟨[], rfl, Gen.manyNil⟩
+    | alt a b =>
+      simp only [matchS] at h
+      rcases List.mem_append.mp (mem_dedupLen h) with h1 | h1
+      · obtain ⟨p, e, g⟩ := ih a ts r h1; exact ⟨p, e, Gen.altL g⟩
+      · obtain ⟨p, e, g⟩ := ih b ts r h1; exact ⟨p, e, Gen.altR g⟩
+    | ext =>
+      simp only [matchS] at h
+      obtain ⟨pre, e, hd⟩ := balRests_sound ts 0 r h
+      exact ⟨pre, e, Gen.ext (balanced_of_depth hd)⟩
+    | startTok =>
+      simp only [matchS] at h
+      split at h
+      · simp only [List.mem_singleton] at h; subst h
+        exact ⟨[Tok.start _ _], rfl, Gen.startTok _ _⟩
+      · simp at h
+    | stopTok =>
+      simp only [matchS] at h
+      split at h
+      · simp only [List.mem_singleton] at h; subst h
+        exact ⟨[Tok.stop _], rfl, Gen.stopTok _⟩
+      · simp at h
+    | unknown =>
+      simp only [matchS] at h
+      obtain ⟨pre, e⟩ := suffixes_sound ts r h
+      exact ⟨pre, e, Gen.unknown pre⟩
+
+theorem accepts_sound (s : Skel) (ts : List Tok) (h : accepts s ts = true) : Gen s ts := by
+  simp only [accepts, List.any_eq_true] at h
+  obtain ⟨r, hr, he⟩ := h
+  obtain ⟨pre, e, g⟩ := matchS_sound _ s ts r hr
+  have : r = [] := by simpa using he
+  subst this
+  simpa [e] using g
+
 end XmppModel.Payload
